@@ -61,6 +61,7 @@ const relName = "rel"
 const ns = "ns1"
 
 type caseData struct {
+	Kind   string `json:"kind,omitempty"` // "" = action-level history | cli = command-line route (cli.go)
 	HSeed  int64  `json:"hseed"`
 	Driver string `json:"driver"`
 	Only   string `json:"only,omitempty"` // replay aid: "base" or a fault id "op2:create:1"
@@ -70,7 +71,7 @@ func init() {
 	core.Register(&core.Prop{
 		ID:    "C12",
 		Level: "fault_enumeration",
-		Rule: "per hook-set seed: two chart versions with independently generated hook sets (0-4 hooks per event, multi-event hooks, same-kind same-name hook pairs in two namespaces, weights incl. negative/equal/non-numeric, all 8 delete-policy subsets, 4 kinds, name order != file order) and one of 7 history shapes over install/upgrade/rollback/uninstall (some ops with hooks disabled, two shapes with atomic+no-hooks ops that are additionally run with a failing readiness wait), on memory and secrets storage; one fault-free run plus one run per single hook failure (each hook create rejected once, each hook readiness failing once) of every op; all ops of every run are judged. " +
+		Rule: "per hook-set seed: two chart versions with independently generated hook sets (0-4 hooks per event, multi-event hooks, same-kind same-name hook pairs in two namespaces, weights incl. negative/equal/non-numeric, all 8 delete-policy subsets, 4 kinds, name order != file order) and one of 7 history shapes over install/upgrade/rollback/uninstall (some ops with hooks disabled, two shapes with atomic+no-hooks ops that are additionally run with a failing readiness wait), on memory and secrets storage; one fault-free run plus one run per single hook failure (each hook create rejected once, each hook readiness failing once) of every op; all ops of every run are judged. Plus a CLI family (cli.go): the real cobra commands install / upgrade / upgrade --install / rollback / uninstall with --no-hooks (and --atomic) against the simulator over HTTP, judged by hook-created-with-hooks-disabled, with the same commands without --no-hooks as positive control. " +
 			"distinct_nontrivial counts distinct (op kind, event, number of hooks in the event, failure kind, policy set of the failing hook, leftover-present) tuples among judged events that ran at least one hook.",
 		Assumptions: []string{
 			"the simulated API server applies requests like a real API server; its request log and the scripted waiter share one logical clock",
@@ -101,7 +102,7 @@ func genCases(seed int64, tier string) []core.Case {
 			out = append(out, core.Case{ID: fmt.Sprintf("hs%d-%s", i, drv), Data: core.J(caseData{HSeed: hs, Driver: drv})})
 		}
 	}
-	return out
+	return append(out, genCLICases(rng, tier)...)
 }
 
 // ---------------------------------------------------------------- generator
@@ -930,6 +931,9 @@ func run(c core.Case, verbose bool) core.Result {
 	env.Quiet()
 	var d caseData
 	core.U(c, &d)
+	if d.Kind == "cli" {
+		return runCLI(c, d, verbose)
+	}
 	var res core.Result
 	s := mkSetup(d)
 	if verbose {
@@ -994,7 +998,8 @@ func run(c core.Case, verbose bool) core.Result {
 
 func post(a *core.Agg) string {
 	var miss []string
-	for _, k := range []string{"hook_creates_ordered", "hook_completions_observed", "delete_policy_decisions_checked", "leftovers_met_by_before_hook_creation", "failed_pre_hooks_gate_checked", "failed_post_hooks_checked", "ops_with_hooks_disabled_checked", "failed_atomic_ops_with_hooks_disabled_checked:upgrade", "failed_atomic_ops_with_hooks_disabled_checked:install", "hook_failures_judged:create", "hook_failures_judged:ready", "hook_object_end_states_compared", "events_with_namespace_twins_all_run"} {
+	for _, k := range []string{"hook_creates_ordered", "hook_completions_observed", "delete_policy_decisions_checked", "leftovers_met_by_before_hook_creation", "failed_pre_hooks_gate_checked", "failed_post_hooks_checked", "ops_with_hooks_disabled_checked", "failed_atomic_ops_with_hooks_disabled_checked:upgrade", "failed_atomic_ops_with_hooks_disabled_checked:install", "hook_failures_judged:create", "hook_failures_judged:ready", "hook_object_end_states_compared", "events_with_namespace_twins_all_run",
+		"cli_commands_with_hooks_disabled_that_acted", "cli_failed_atomic_commands_with_hooks_disabled_checked", "cli_control_hook_creates:install-install", "cli_control_hook_creates:upgrade-upgrade", "cli_control_hook_creates:upgrade-install", "cli_control_hook_creates:rollback-rollback", "cli_control_hook_creates:uninstall-delete"} {
 		if a.Stats[k] == 0 {
 			miss = append(miss, k)
 		}
